@@ -73,7 +73,7 @@ def all_ops():
                 ops.append([name, form, opnd])
     for name in ("extend", "iadd", "add"):
         ops.append([name, "self", None])
-    for k in (0, 1, 2):
+    for k in (0, 1, 2, -1):
         ops.append(["mul", k])
     for sl in ([None, None], [1, None], [None, 1], [0, 0], [None, None, 2]):
         ops.append(["getslice", sl])
